@@ -142,6 +142,9 @@ func genH264AUm(t *core.Tape, mtu int, allowParams bool, state *int, supersede b
 		size := nalSize(t, mtu, 2, 2)
 		if t.Chance(1, 400) && mtu >= 1000 {
 			size = 65530 + t.Intn(3000) // larger than any 16-bit length: key frames of real encoders are
+			if t.Chance(1, 3) {
+				size = []int{1 << 18, 1 << 19, 1 << 20}[t.Intn(3)] - 2000 + t.Intn(4000) // 4K intra pictures: hundreds of KiB in one unit
+			}
 		}
 		add(typ, byte(t.Intn(4)), size)
 		if h264SharedPrefix != nil {
